@@ -4,7 +4,7 @@
 # reports a violation on it is a false alarm of mine (unless the refactoring turns out not to preserve behaviour).
 set -u
 wt="$1"; name="$2"
-export GOFLAGS=-mod=mod GOPROXY=off
+export GOFLAGS="-mod=mod -trimpath" GOPROXY=off
 out=/verif/refactors_indep/$name; mkdir -p "$out/demo"
 T=$(mktemp -d "${TMPDIR:-/tmp}/emcheck-ref-XXXXXX"); trap 'rm -rf "$T"' EXIT
 mkdir -p "$T/with" "$T/without" "$T/verif"
